@@ -2,7 +2,7 @@
   C01 for the yearly filler, part 3: what the period of a year offers (`yE`, `mem_yE_iff`), and the year loop's
   positions and lists as the abstract loop wants them (`yly_loopHyp`).
 -/
-import Echse.Lemmas.RrYlyRfc2
+import Echse.Lemmas.RrYlyRfc2b
 import Echse.Lemmas.RrMlyRfc5
 import Echse.Lemmas.RrCandRfc11
 namespace Echse.Lemmas.RrYlyRfc
